@@ -36,8 +36,11 @@ structure CompileOut where
   emitErr : Option String
 
 def compile (input : GoStr) : CompileOut :=
-  let (toks, oc) := lexBytes input
-  let (err, tree) := parseToks toks
+  let (toks, oc0) := lexBytes input
+  let (err, tree, pulled) := parseToks toks
+  -- the lexer runs lazily inside the parser's `nextToken`: a failing state invocation is only
+  -- reached when the parser pulls more tokens than the completed invocations produced
+  let oc := if oc0 != .ok && pulled ≤ toks.length then .ok else oc0
   match emitNode tree false none {} {} with
   | .ok (g, _) =>
     { lexOutcome := oc, err := err, text := g.text,
